@@ -22,7 +22,13 @@ def work(seed, n):
     @given(gen.join_case())
     def prop(c):
         ci, ir = c
-        key, what, facts = diffrun.run_case(ci, ir)
+        script = None
+        if ir[0] == "join" and ir[4] and len(facts_seed := ir[2]) >= 2 and hash(repr(ir)) % 3 == 0:
+            # two joins with the same aliases in one script: an earlier statement renames every qualified name away
+            shared = [n for n in ci["structs"]["DS_1"] if ci["structs"]["DS_1"][n][0] != "I" and n in ci["structs"]["DS_2"]]
+            first = ("join", ir[1], ir[2], None, [("rename", [("%s#%s" % (a, n), "z_%s_%s" % (a, n)) for n in shared for _, a in ir[2][:2]])] if shared else [])
+            script = "R0 := %s;\nR <- %s;" % (gen.render_ds(first), gen.render_ds(ir))
+        key, what, facts = diffrun.run_case(ci, ir, script=script)
         if key == "unsupported":
             part.hist["unsupported_by_reference"] += 1
             return
@@ -35,7 +41,7 @@ def work(seed, n):
         ks = [keyset(n) for n in names]
         nt = len(ks) >= 2 and bool(ks[0] - ks[1]) and bool(ks[1] - ks[0])
         part.case(core.fingerprint([ci, facts["script"]]), nt, sample=dict(script=facts["script"], rows={k: v[:3] for k, v in ci["rows"].items()}) if nt and len(part.samples) < 2 else None,
-                  labels=["kind=" + kind, "operands=%d" % len(ir[2]), "using" if ir[3] else "no-using"] + ["body:" + b[0] for b in body])
+                  labels=["kind=" + kind, "operands=%d" % len(ir[2]), "using" if ir[3] else "no-using"] + ["body:" + b[0] for b in body] + (["two_join_statements"] if script else []))
         if key:
             key = key.split(":")[0] + ":" + kind + ":" + "+".join(b[0] for b in body)
             part.fail(key, dict(inputs=ci, script=facts["script"], ir=repr(ir)), what)
